@@ -1,0 +1,17 @@
+//go:build verif
+
+// Contracts for package bufpool (comment-only; read by /verif/govc, never compiled into olric).
+
+package bufpool
+
+// sync.Pool only ever holds what New or Put gave it: buffers.
+//@ func (p *BufPool) Get() *bytes.Buffer
+//@   props C09 C16
+//@   trusted
+//@   ensures #buffer: result != nil
+//@   modifies nothing
+
+//@ func (p *BufPool) Put(b *bytes.Buffer)
+//@   props C09 C16
+//@   trusted
+//@   modifies nothing
